@@ -2,6 +2,7 @@ package main
 
 import (
 	"bytes"
+	"crypto/sha256"
 	"encoding/hex"
 	"fmt"
 	"os"
@@ -356,7 +357,23 @@ func valUpdatesKey(ups []types.ValidatorUpdate) string {
 }
 
 func txResKey(r types.ResponseDeliverTx) string {
-	return fmt.Sprintf("code=%d cs=%s data=%x gw=%d gu=%d", r.Code, r.Codespace, r.Data, r.GasWanted, r.GasUsed)
+	return fmt.Sprintf("code=%d cs=%s data=%x gw=%d gu=%d ev=%s", r.Code, r.Codespace, r.Data, r.GasWanted, r.GasUsed, eventsKey(r.Events))
+}
+
+// eventsKey is a digest of an event list in order (type, attribute keys and values).
+func eventsKey(evs []types.Event) string {
+	h := sha256.New()
+	for _, e := range evs {
+		h.Write([]byte(e.Type))
+		h.Write([]byte{0})
+		for _, a := range e.Attributes {
+			h.Write([]byte(a.Key))
+			h.Write([]byte{1})
+			h.Write([]byte(a.Value))
+			h.Write([]byte{2})
+		}
+	}
+	return hex.EncodeToString(h.Sum(nil)[:6]) + fmt.Sprintf("/%d", len(evs))
 }
 
 // compareReplicas is the C01 oracle for one block.
@@ -383,6 +400,9 @@ func (b *bundle) compareReplicas(out *blockOutcome) string {
 			if a, c := txResKey(r.TxResults[j]), txResKey(ref.TxResults[j]); a != c {
 				return fmt.Sprintf("replica %s: result of tx %d is {%s}, %s has {%s}", name, j, a, b.reps[0].spec.Name, c)
 			}
+		}
+		if a, c := eventsKey(r.BlockEvents), eventsKey(ref.BlockEvents); a != c {
+			return fmt.Sprintf("replica %s: block events (BeginBlock + EndBlock) digest %s, %s has %s", name, a, b.reps[0].spec.Name, c)
 		}
 		if a, c := valUpdatesKey(r.ValidatorUpdates), valUpdatesKey(ref.ValidatorUpdates); a != c {
 			return fmt.Sprintf("replica %s: validator updates {%s}, %s has {%s}", name, a, b.reps[0].spec.Name, c)
